@@ -17,9 +17,18 @@ CONSTANTS
                \* transitions between such states (histories of any length)
   Rich         \* TRUE: larger value / bad-value / override alphabets
 
-Tree == [par |-> <<0, 1, 2, 2, 3, 5, 4>>, nc |-> 5]
+(* Metaclass variants of that tree (which classes are declared with a derived     *)
+(* metaclass); the model's transitions do not depend on the variant - the replay   *)
+(* runs every walk on real classes built per variant (rotating; the walks of the   *)
+(* global setting under EVERY variant).                                            *)
+MetaVariants == << <<0, 0, 1, 0, 0, 0, 0>>,    \* 3 (and so 5, instance 6) vs plain 1, 2, 4, 7
+                   <<0, 1, 0, 0, 0, 0, 0>>,    \* everything below the real class
+                   <<0, 0, 0, 1, 1, 0, 0>>,    \* two unrelated derived metaclasses (4; 5)
+                   <<0, 0, 0, 0, 0, 0, 0>> >>  \* none
+Tree == [par |-> <<0, 1, 2, 2, 3, 5, 4>>, nc |-> 5, dm |-> MetaVariants[1]]
 N == Len(Tree.par)
 ASSUME WellFormedTree(Tree)
+ASSUME \A i \in 1..Len(MetaVariants) : WellFormedTree([Tree EXCEPT !.dm = MetaVariants[i]])
 
 VARIABLES fam, cur, S, out
 vars == <<fam, cur, S, out>>
@@ -191,5 +200,5 @@ InitDump ==
     /\ PrintT(<<"DEFAULTS", ToJson([fam |-> fam, par |-> Tree.par, nc |-> Tree.nc,
                  eff |-> [i \in 1..Len(SettingSeq) |->
                             [set |-> SettingSeq[i], v |-> Show(ObsDefault(fam, SettingSeq[i]))]],
-                 gate |-> "shut", geos |-> GeoTable])>>)
+                 gate |-> "shut", geos |-> GeoTable, metas |-> MetaVariants])>>)
 =============================================================================
